@@ -511,6 +511,25 @@ def ob_godambe_assembly():
             inner = g.args[0]
             okG = g.args[1] is h and isinstance(inner, Tm) and inner.args[0] is h and 'inv' in vrepr(inner.args[1]) and inner.args[1].args[0] is J
         out.append(struct(oid + '.G', bool(okG), 'G = dot(dot(H, inv(J)), H)', fn))
+        # frame: the arguments are left as they were - in particular an (empty) boot_theta_adjusts list handed in, which is also what the default
+        # argument object is: extending it in place would leak the number of bootstraps of one call into the next
+        ex3 = Executor()
+        f3 = ex3.func(FILE, 'get_godambe')
+
+        def thunk3(e):
+            adj0 = VList([]); adj0.owner = 'boot_theta_adjusts'
+            boots = VList([b1, b2]); boots.owner = 'all_boot'
+            p0c = VList(reals('p', 2)); p0c.owner = 'p0'
+            e.apply(f3.node, None, f3.mod, [fe, Tm('pts'), boots, p0c, data, eps], dict(boot_theta_adjusts=adj0), 'get_godambe')
+            return [(e_[2], e_[3]) for e_ in e.ctx.log if e_[0] == 'mutate' and e_[3] in ('boot_theta_adjusts', 'all_boot', 'p0')], len(adj0.items)
+        paths3 = ex3.explore(thunk3)
+        rets3 = [q for q in paths3 if q.outcome == 'return']
+        if len(rets3) != 1:
+            out.append(struct(oid + '.frame', False, 'expected exactly one returning path, got %r' % paths3[:2], fn, undecided=True))
+        else:
+            muts, nadj = rets3[0].value
+            out.append(struct(oid + '.frame', not muts and nadj == 0, 'all_boot, p0 and an empty boot_theta_adjusts list are left untouched' if not muts and nadj == 0 else
+                              'an argument is modified in place: %s (boot_theta_adjusts now has %d entries)' % (muts[:3], nadj), fn, finding_key='C19/get_godambe/frame'))
         # every bootstrap's score is taken with ITS theta adjustment, in linear and in log parameters, and at the right point
         for log_ in (False, True):
             adj = reals('adjust', 2)
